@@ -663,4 +663,49 @@ Section QueryOk.
         exists j. split; [|exact Hj]. apply Hjs. unfold WFDefs.pred_rel, WFDefs.grp_of. rewrite Hi, Hj.
         destruct Hor as [H|(Hd & H)]; [left; exact H|]. right. rewrite Hd, (cn_directed tltb _ _ _ Hd). exact H.
   Qed.
+
+  (* ---------------- node-set queries ---------------- *)
+  Definition in_names (g : gstate) (x : T) : bool := existsb (fun n => teqb (nname n) x) (nodes_vec g).
+
+  Lemma has_nodes_spec (g : gstate) xs : WF g -> has_nodes teqb g xs = Ok (forallb (in_names g) xs).
+  Proof.
+    intros W. induction xs as [|x t IH]; simpl; [reflexivity|].
+    rewrite (has_node_spec g x W). simpl. unfold in_names at 1.
+    destruct (existsb (fun n => teqb (nname n) x) (nodes_vec g)); simpl; [exact IH|reflexivity].
+  Qed.
+
+  Theorem get_edges_for_nodes_spec (g : gstate) xs :
+    WF g ->
+    get_edges_for_nodes teqb g xs =
+    if forallb (in_names g) xs
+    then Ok (filter (fun e => mem_name teqb (eu e) xs || mem_name teqb (ev e) xs) (all_edges g))
+    else Err NodeNotFound.
+  Proof.
+    intros W. unfold get_edges_for_nodes. rewrite (has_nodes_spec g xs W). simpl.
+    destruct (forallb (in_names g) xs); reflexivity.
+  Qed.
+
+  Theorem get_in_edges_for_nodes_spec (g : gstate) xs :
+    WF g ->
+    get_in_edges_for_nodes teqb g xs =
+    if negb (directed (sp g)) then Err WrongMethod
+    else if forallb (in_names g) xs
+    then Ok (filter (fun e => mem_name teqb (ev e) xs) (all_edges g))
+    else Err NodeNotFound.
+  Proof.
+    intros W. unfold get_in_edges_for_nodes. destruct (negb (directed (sp g))); [reflexivity|].
+    rewrite (has_nodes_spec g xs W). simpl. destruct (forallb (in_names g) xs); reflexivity.
+  Qed.
+
+  Theorem get_out_edges_for_nodes_spec (g : gstate) xs :
+    WF g ->
+    get_out_edges_for_nodes teqb g xs =
+    if negb (directed (sp g)) then Err WrongMethod
+    else if forallb (in_names g) xs
+    then Ok (filter (fun e => mem_name teqb (eu e) xs) (all_edges g))
+    else Err NodeNotFound.
+  Proof.
+    intros W. unfold get_out_edges_for_nodes. destruct (negb (directed (sp g))); [reflexivity|].
+    rewrite (has_nodes_spec g xs W). simpl. destruct (forallb (in_names g) xs); reflexivity.
+  Qed.
 End QueryOk.
